@@ -284,3 +284,64 @@ Qed.
 
 Theorem parse_i32_empty_lemma : parse_i32 EmptyString = Panic "parse::<i32>: empty string".
 Proof. reflexivity. Qed.
+
+(* ------------------------------------------------------------------ the same, in the form
+   used by the detector-level theorems of C09 *)
+Fixpoint value_acc (s : string) (acc : N) : N :=
+  match s with
+  | EmptyString => acc
+  | String c r => value_acc r (10 * acc + (N_of_ascii c - 48))
+  end.
+(* decimal value of a digit string (leading zeros allowed) *)
+Definition value (s : string) : N := value_acc s 0.
+
+Lemma digits_val_value : forall s acc,
+  all_chars is_digit s = true -> digits_val s acc = Some (value_acc s acc).
+Proof.
+  induction s as [|c r IH]; intros acc H; [reflexivity|].
+  cbn [all_chars] in H. apply andb_true_iff in H. destruct H as [Hc Hr].
+  cbn [digits_val value_acc]. rewrite Hc. apply IH. exact Hr.
+Qed.
+
+Lemma value_dec n : value (dec n) = n.
+Proof.
+  assert (H := digits_val_value (dec n) 0 (proj1 (dec_digits n))).
+  rewrite digits_val_dec in H. injection H as H. symmetry. exact H.
+Qed.
+
+Lemma scan_three_components : forall pre d1 d2 d3 : string,
+  no_digit pre -> digits d1 -> digits d2 -> digits d3 ->
+  get_solidity_major_minor_patch_version (pre ++ d1 ++ "." ++ d2 ++ "." ++ d3)%string = [d1; d2; d3].
+Proof. exact version_extract_digits_lemma. Qed.
+
+Lemma parse_i32_digits : forall d,
+  all_chars is_digit d = true -> d <> EmptyString -> value d < 2 ^ 31 ->
+  parse_i32 d = Ok (Z.of_N (value d)).
+Proof.
+  intros d Ha Hn Hv. apply parse_i32_digits_lemma.
+  - split; assumption.
+  - apply digits_val_value. exact Ha.
+  - change (2 ^ 31) with 2147483648 in Hv. unfold i32_max. lia.
+Qed.
+
+Lemma parse_i32_digits_overflow : forall d,
+  all_chars is_digit d = true -> d <> EmptyString -> 2 ^ 31 <= value d ->
+  parse_i32 d = Panic "parse::<i32>: number out of range".
+Proof.
+  intros d Ha Hn Hv. change (2 ^ 31) with 2147483648 in Hv.
+  destruct d as [|c r] eqn:E; [contradiction|]. rewrite <- E in *.
+  assert (Hc : is_digit c = true) by (rewrite E in Ha; cbn [all_chars] in Ha; apply andb_true_iff in Ha; exact (proj1 Ha)).
+  assert (H45 : (N_of_ascii c =? 45) = false /\ (N_of_ascii c =? 43) = false).
+  { unfold is_digit in Hc. cbv zeta in Hc. apply andb_true_iff in Hc. destruct Hc as [H1 _].
+    apply N.leb_le in H1. split; apply N.eqb_neq; lia. }
+  destruct H45 as [E45 E43].
+  assert (Hd : digits_val d 0 = Some (value d)) by (apply digits_val_value; exact Ha).
+  rewrite E in Hd |- *. unfold parse_i32. cbv zeta. rewrite E45, E43. cbn [orb is_empty]. rewrite Hd.
+  rewrite <- E.
+  assert (Hr : ((i32_min <=? Z.of_N (value d)) && (Z.of_N (value d) <=? i32_max))%Z = false).
+  { apply andb_false_iff. right. apply Z.leb_gt. unfold i32_max. lia. }
+  rewrite Hr. reflexivity.
+Qed.
+
+Lemma dec_is_digits_lemma : forall n, digits (dec n) /\ digits_val (dec n) 0 = Some n.
+Proof. intros n. split; [apply dec_digits | apply digits_val_dec]. Qed.
